@@ -45,7 +45,7 @@ def main():
                 sys.exit(3)
             s = s.replace(a.old, a.new, a.count)
             open(p, 'w').write(s)
-        env = dict(os.environ, DD_REPO=d)
+        env = dict(os.environ, DD_REPO=d, SYMDD_EVIDENCE_DIR=os.path.join(d, '_evidence'))
         cmd = [os.path.join(HERE, 'bin/check'), a.pid, '--tier', a.tier]
         if a.only:
             cmd += ['--only', a.only]
